@@ -33,13 +33,20 @@ int nondet_int(void);
  * proves cond instead, the outputs do not depend on what they must depend on -> violation.
  * The driver inverts the verdict of assertions whose description starts with MUSTFAIL. */
 #define MUSTFAIL(cond, desc) __CPROVER_assert((cond), "MUSTFAIL " desc)
+/* -DVERIF_ALIGN=k (default 0): every caller buffer starts k bytes into its heap object.  CBMC places object bases
+ * at multiples of the word size, so k is the buffer's address modulo 4/8: code that inspects the pointer value
+ * ((uintptr_t)p & 3) or takes an alignment-dependent path is then exercised on that path.  With k == 0 the buffer is
+ * the whole object (reads before its start are bounds failures too); with k > 0 only its end is exact. */
+#ifndef VERIF_ALIGN
+#define VERIF_ALIGN 0
+#endif
 static inline unsigned char *verif_alloc(size_t n)
 {
     unsigned char *p;
     if (!n) return 0;
-    p = (unsigned char *)malloc(n);
+    p = (unsigned char *)malloc(n + VERIF_ALIGN);
     __CPROVER_assume(p != 0);
-    return p;
+    return p + VERIF_ALIGN;
 }
 #define IN_DECL(name, maxn) unsigned char IN_##name[(maxn) > 0 ? (maxn) : 1]
 /* exact-size buffer of n symbolic bytes, mirrored in IN_<name> */
@@ -62,13 +69,16 @@ uint64_t verif_native_u64(const char *name);
 #define ASSUME(cond) do { if (!(cond)) { printf("ASSUME-UNMET %s:%d\n", __FILE__, __LINE__); fflush(stdout); exit(77); } } while (0)
 #define WITNESS() do { printf("REPLAY-END\n"); } while (0)
 #define MUSTFAIL(cond, desc) do { if (cond) { printf("ASSERT-FAIL %s:%d independence: %s\n", __FILE__, __LINE__, desc); fflush(stdout); exit(1); } } while (0)
+#ifndef VERIF_ALIGN
+#define VERIF_ALIGN 0
+#endif
 static inline unsigned char *verif_alloc(size_t n)
 {
     unsigned char *p;
     if (!n) return 0;
-    p = (unsigned char *)malloc(n);
+    p = (unsigned char *)malloc(n + VERIF_ALIGN);      /* glibc malloc is 16-byte aligned */
     if (!p) abort();
-    return p;
+    return p + VERIF_ALIGN;
 }
 #define IN_DECL(name, maxn) unsigned char IN_##name[(maxn) > 0 ? (maxn) : 1]
 #define IN_BYTES(ptr, name, n) do { size_t _n = (n); (ptr) = verif_alloc(_n); \
